@@ -155,4 +155,36 @@ META = {
                  "assumed ideal; live connections with a tiny key-update window (hook h2) are not exercised."),
         "technique": "Lean 4 invariant proofs over the key-update state machine (two endpoints + adversarial channel) + regenerated-constant bridges + differential correspondence",
     },
+
+    "C11": {
+        "category": "proof",
+        "text": ("Lean theorems over transcriptions of the anti-amplification allowance counter, the stateless-reset length logic, the version "
+                 "negotiation decision table and the client Initial padding rule: a datagram is started only with allowance left, a produced "
+                 "stateless reset is strictly smaller than its trigger and none is sent when impossible (for every random draw), Version "
+                 "Negotiation only for Initial datagrams of at least 1200 bytes and never for a VN packet, client Initial datagrams padded. The "
+                 "quantitative 3x bound is false of the code after an overshoot (proved counterexample, known finding F4); proved instead: the "
+                 "bound with the forgiven-debt term, and the plain bound when nothing is received after an overshoot. Tie: 47 constants/operators "
+                 "re-extracted with bridge lemmas; the Lean driver is run against the real stateless_reset::encode_packet (all trigger lengths "
+                 "0..1500) and the real path::Path allowance counter (harness/vh-transport); wire-level oracle on end-to-end traces (lossy "
+                 "handshakes, client blackholed after its first Initial, stray datagrams of unknown connection id / version / VN / tiny sizes)."),
+        "note": ("Trusted: Lean kernel (standard axioms), tools/extract.py, vh-core / vh-transport / vh-e2e harnesses, python oracles. Which packets "
+                 "the connection chooses to build is not modelled; Negotiator and the datagram builder are tied by G and the wire oracle only."),
+        "technique": "Lean 4 theorems over allowance / reset-length / VN decision models + regenerated-constant bridges + differential and wire-level trace correspondence",
+    },
+
+    "C13": {
+        "category": "proof",
+        "text": ("Lean theorems by induction over arbitrary registry histories (register / retire / ack / loss / timeout / transmit): the number of "
+                 "unretired IDs in the peer's view (counted per RFC 9000 5.1.1) never exceeds the peer's active_connection_id_limit, "
+                 "retire_prior_to never exceeds the next sequence number, IDs and reset tokens are pairwise distinct, every registered ID routes "
+                 "to its connection, only IDs the peer issued are retired and never inside a packet addressed to that ID; sequence-number "
+                 "consecutiveness and retire_prior_to <= seq are proved under a monotone-expiry hypothesis, with proved counterexamples "
+                 "without it; the trace acceptor is proved sound. Tie: real end-to-end traces with peer limits 2..8 (declared limit rewritten at "
+                 "the TLS layer), short ID lifetimes, handshake-ID rotation, client rebinding schedules and loss of NEW/RETIRE_CONNECTION_ID "
+                 "frames: every NEW_CONNECTION_ID / RETIRE_CONNECTION_ID frame and every datagram's destination ID is checked by an RFC-side "
+                 "PeerView oracle and replayed through the Lean acceptor (verdicts must agree; tampered traces must be rejected by both)."),
+        "note": ("Trusted: Lean kernel (standard axioms), vh-e2e harness, python oracle. No in-crate differential tie for the registries (private to "
+                 "s2n-quic-transport); the path manager is modelled for the active path only. Known finding F14 (expired-unconfirmed IDs unroutable)."),
+        "technique": "Lean 4 invariant proofs over connection-ID registry models + end-to-end frame/routing trace oracle cross-checked with a Lean trace acceptor",
+    },
 }
